@@ -72,6 +72,18 @@ def make_workload(seed, i):
         pkg.files[fn].append(M.Record(order[1], (), [("text", M.Prim("string"))]))
         pkg.files[fn].append(M.Protocol("SteerCaseOnly", [("first", M.Named(a), False), ("second", M.Named(b), True)]))
         desc["names_differing_in_case_only"] = [a, b]
+    tr = rng.fork("transitive")
+    if tr.chance(0.3):
+        # a package that is only reached through another one: the main package imports TransA, TransA imports TransB
+        pb = M.Package("TransB", "imp_transb", {"b.yml": [M.Record("TransBRec", (), [("v", M.Prim("int32")), ("label", M.Prim("string"))]),
+                                                           M.Enum("TransBKind", None, [("plain", 0), ("fancy", 1)])]})
+        pa = M.Package("TransA", "imp_transa", {"a.yml": [M.Record("TransARec", (), [("inner", M.Named("TransBRec", (), "TransB")), ("kind", M.Named("TransBKind", (), "TransB")), ("n", M.Prim("int32"))])]},
+                       imports=[pb])
+        pkg.imports.append(pa)
+        fn = sorted(pkg.files)[0]
+        pkg.files[fn].append(M.Record("SteerUsesTrans", (), [("t", M.Named("TransARec", (), "TransA")), ("count", M.Prim("uint8"))]))
+        pkg.files[fn].append(M.Protocol("SteerTrans", [("one", M.Named("SteerUsesTrans"), False), ("many", M.Named("TransARec", (), "TransA"), True)]))
+        desc["transitively_imported_package"] = True
     sh = rng.fork("shared")
     if len(pkg.imports) >= 2 and sh.chance(0.6):
         # the same type name in two imported packages (each namespace has its own)
